@@ -52,6 +52,8 @@ impl EgressBuffer {
     // Control frames (PING/PONG) are outside HWM accounting — msg_count = 0.
     // Inject in front but after the current write_offset position of the head chunk.
     if self.write_offset > 0 {
+      #[cfg(rzmq_verif)]
+      crate::verif::count("egress.push_priority.partial_head");
       self.chunks.insert(1, (data, 0));
     } else {
       self.chunks.push_front((data, 0));
